@@ -142,6 +142,9 @@ pub struct DriverOut {
     pub executor_sessions: Vec<u32>,
     pub completed_script: bool,
     pub start_errors: Vec<String>,
+    /// results of a custom driver (C18: findings as 'rule|signature|message', counters)
+    pub custom: Vec<String>,
+    pub custom_counts: std::collections::BTreeMap<String, u64>,
 }
 
 struct Ctx {
@@ -226,6 +229,10 @@ fn drain_timers(max: usize) {
 pub fn run_scenario(sc: Arc<Scenario>, out: Arc<Mutex<DriverOut>>) {
     driver::init();
     rufsm::fsm::verif_reset_counters();
+    if sc.kind == "C18-iofault" {
+        crate::props::c18::driver(&sc, &out);
+        return;
+    }
     rufsm::tracer::set_tracer_factory(Box::new(hooks::RecordingTracerFactory));
     hooks::SNAPSHOTS_ON.with(|s| s.set(sc.knobs.snapshots));
     let ctx = Arc::new(Ctx { executor: FsmExecutor::new_without_io_processor(), sessions: Arc::new(Mutex::new(Vec::new())), out });
